@@ -20,6 +20,7 @@ func Run(c *hx.Ctx) {
 	dirtyCases(c)
 	random(c)
 	correspondence(c)
+	bigFiles(c)
 }
 
 type shape struct {
